@@ -29,6 +29,14 @@ for _pid, _what in (("C02", "conservation (Contig, Piece, Sum, Cover, NonEmpty, 
              "Small-scope exhaustiveness fits: the wrapper's carried-over state spans at most a few candidates, and all defects found (4, fixed) showed at <= 3 runes.",
         note=_WRAP_NOTE)
 
+CHECKS["C15"] = dict(
+    engine="css",
+    technique="TLA+ transcription of CSS Fonts §5.2 (CSSMatch.tla), model-checked for its own promises, and TLC trace validation of the real retainsBestMatches over an exhaustive grid of candidate lists x requests",
+    category="model_checking", design_ref="DESIGN.md §5 C15",
+    text="CSSMatch!Narrow is the standard's narrowing written declaratively; TLC first proves over a grid (3.4M states) that it always yields a non-empty uniform subset and that exact matches win, "
+         "then evaluates it against the indices retained by the real code for every multiset of <= K candidates over the grid and every request, plus random larger lists. A pure function over a small value domain: exhaustive grids are the right level.",
+    note="Trusts TLC and the verif export VerifRetainBest (a 6-line wrapper around fontSet.retainsBestMatches). Values outside the grids are sampled only.")
+
 NOT_YET = {}
 NA = {
  "C05": "defined as agreement with the reference C HarfBuzz; no reference shaper (uharfbuzz/hb-shape) exists in this sealed sandbox and re-specifying HarfBuzz in TLA+ would make the spec the reference (DESIGN §6)",
